@@ -416,9 +416,13 @@ type Tally struct {
 	ops []func(r *Reporter)
 }
 
-func (t *Tally) AddValidated(n int)   { t.ops = append(t.ops, func(r *Reporter) { r.AddValidated(n) }) }
-func (t *Tally) AddEvaluations(n int) { t.ops = append(t.ops, func(r *Reporter) { r.AddEvaluations(n) }) }
-func (t *Tally) AddTransitions(n int) { t.ops = append(t.ops, func(r *Reporter) { r.AddTransitions(n) }) }
+func (t *Tally) AddValidated(n int) { t.ops = append(t.ops, func(r *Reporter) { r.AddValidated(n) }) }
+func (t *Tally) AddEvaluations(n int) {
+	t.ops = append(t.ops, func(r *Reporter) { r.AddEvaluations(n) })
+}
+func (t *Tally) AddTransitions(n int) {
+	t.ops = append(t.ops, func(r *Reporter) { r.AddTransitions(n) })
+}
 func (t *Tally) AddStates(n int)      { t.ops = append(t.ops, func(r *Reporter) { r.AddStates(n) }) }
 func (t *Tally) Nontrivial(id string) { t.ops = append(t.ops, func(r *Reporter) { r.Nontrivial(id) }) }
 func (t *Tally) Outcome(c string)     { t.ops = append(t.ops, func(r *Reporter) { r.Outcome(c) }) }
